@@ -115,6 +115,7 @@ func loadWorld(repo string, overlay map[string][]byte, extraEnv ...string) (*Wor
 	if len(w.Pkgs) == 0 {
 		return nil, fmt.Errorf("no module packages (%s) among %d loaded packages", modPath, len(pkgs))
 	}
+	computeNoReturn(w.ModFuncs)
 	// named interface types of the module, by name (isInvokeOf resolves narrowed views of them)
 	moduleIfaces = map[string][]*types.Named{}
 	for _, p := range w.Pkgs {
